@@ -3,7 +3,7 @@
 //! their generators are exported separately (`gen_skip`, `gen_cut`, `gen_fault`).
 //!
 //! ops (all answered by the Lean model as well, see lean/JominiModel/Driver/C08.lean):
-//!   blex <hex> | blexid <hex> | bpeek <hex> | bcut <hex> <k> | bwrite <toks>
+//!   bfits <cap> <hex> | blex <hex> | blexid <hex> | bpeek <hex> | bcut <hex> <k> | bwrite <toks>
 //!   bstream <cap> <sched> <hex> | bread <cap> <sched> <hex> | bcalls <cap> <sched> <hex> <n>
 //!   breadbytes <cap> <sched> <hex> <n,n,..>
 //!   bskip <cap> <sched> <hex> <k> | blexskip <hex> <k> | blexskipv <hex> <k>
@@ -371,6 +371,13 @@ pub fn exec(w: &[&str], obs: &mut Obs) -> Option<String> {
                 obs.count(if boundary { "cut:boundary" } else { "cut:inside" });
             }
             Some(format!("{} {} {}", join(&toks), outcome, lx.position()))
+        }
+        ["bfits", cw, h] => {
+            // the hypothesis of the streaming theorems as the harness computes it (min_cap);
+            // the driver evaluates the Lean definition `fitsBuffer`
+            let d = unhex(h)?;
+            let cap: usize = cw.parse().ok()?;
+            Some(if cap >= min_cap(&d) { "true" } else { "false" }.to_string())
         }
         ["blexid", h] => {
             let d = unhex(h)?;
@@ -920,7 +927,7 @@ pub fn gen_c08(g: &mut Gen) {
     g.count("long-strings");
 
     // 4. inputs of at most 12 bytes: every composition schedule, capacities from the minimum up
-    let n_small = g.budget(60, 1200);
+    let n_small = g.budget(150, 1200);
     for _ in 0..n_small {
         let mut d = match g.rng.below(3) {
             0 => { let t = gen_token_seq(&mut g.rng, 5, false); encode(&t) }
@@ -938,7 +945,7 @@ pub fn gen_c08(g: &mut Gen) {
     g.count("small-all-compositions");
 
     // 5. generated inputs x schedules x capacities
-    let n = g.budget(2500, 60_000);
+    let n = g.budget(7000, 60_000);
     for _ in 0..n {
         let d = gen_input(g, 30);
         let h = hex(&d);
@@ -963,6 +970,16 @@ pub fn gen_c08(g: &mut Gen) {
         }
     }
     g.count("generated-inputs");
+
+    // 5b. the fit hypothesis itself: harness min_cap vs the Lean definition
+    let n = g.budget(400, 8000);
+    for _ in 0..n {
+        let mut d = gen_input(g, 8);
+        d.truncate(48);
+        let m = min_cap(&d);
+        for cap in [m.saturating_sub(1), m, m + 1, g.rng.below(m + 3)] { g.emit(format!("bfits {} {}", cap, hex(&d))); }
+    }
+    g.count("fits-hypothesis");
 
     // 6. write -> lex for random token sequences (well-formed and not)
     let n = g.budget(1500, 40_000);
@@ -1063,7 +1080,7 @@ fn gen_skip_doc_prefix(g: &mut Gen) -> Vec<u8> {
 
 /// C09 (binary): bskip / blexskip / blexskipv
 pub fn gen_skip(g: &mut Gen) {
-    let n = g.budget(1500, 40_000);
+    let n = g.budget(3500, 40_000);
     for _ in 0..n {
         let d = gen_skip_input(g);
         let h = hex(&d);
@@ -1093,7 +1110,7 @@ pub fn gen_skip(g: &mut Gen) {
 
 /// C19 (binary lexer): every prefix of documents and token sequences
 pub fn gen_cut(g: &mut Gen) {
-    let n = g.budget(60, 1500);
+    let n = g.budget(160, 1500);
     for _ in 0..n {
         let d = match g.rng.below(4) { 0 => { let t = gen_token_seq(&mut g.rng, 12, false); encode(&t) } 1 => gen_skip_input(g), _ => gen_doc_bytes(&mut g.rng) };
         if d.len() > 400 { continue; }
@@ -1105,7 +1122,7 @@ pub fn gen_cut(g: &mut Gen) {
 
 /// C20 (binary reader): F / P at every read-call index, short reads
 pub fn gen_fault(g: &mut Gen) {
-    let n = g.budget(250, 6000);
+    let n = g.budget(600, 6000);
     for _ in 0..n {
         let d = if g.rng.chance(1, 4) { gen_skip_input(g) } else { gen_input(g, 20) };
         if d.len() > 300 { continue; }
